@@ -10,18 +10,20 @@ def jobs(tier):
   t = 500 if q else 3000
   return [
       Job("cond", M, "h_cond",
-          dict(C18_A_DEPTH=3, C18_A_ARITY_ROOT=2, C18_A_ARITY_MID=2 if q else 3),
+          dict(C18_A_DEPTH=3, C18_A_ARITY_ROOT=2, C18_A_ARITY_MID=2),
           shards=31 if q else 61, timeout=t),
-      Job("var", M, "h_var", dict(C18_U=1 if q else 2, C18_B_MAXN=2 if q else 3),
+      Job("var", M, "h_var", dict(C18_U=1, C18_B_MAXN=2 if q else 3),
           shards=16 if q else 47, timeout=t),
       Job("merge-1name", M, "h_merge1", dict(C18_U=0 if q else 1, C18_U2=1),
           shards=47 if q else 97, timeout=t),
-      Job("step-2names", M, "h_step", dict(C18_U=0 if q else 1, C18_U2=0 if q else 1),
+      Job("step-2names", M, "h_step", dict(C18_U=0, C18_U2=0 if q else 1),
           shards=31 if q else 61, timeout=t),
       Job("hist", M, "h_hist",
           dict(C18_HU=-1, C18_H_PREFIX=1 if q else 2, C18_H_TRACK=1),
           shards=31 if q else 61, timeout=t),
   ] + ([] if q else [
+      Job("cond-depth2-arity3", M, "h_cond",
+          dict(C18_A_DEPTH=2, C18_A_ARITY_ROOT=3, C18_A_ARITY_MID=3), shards=7, timeout=t),
       Job("merge-2names", M, "h_merge2", dict(C18_U=-1, C18_U2=0),
           shards=64, timeout=t),
   ])
